@@ -80,8 +80,8 @@ struct B {
 
 fn bounds(tier: Tier) -> B {
     match tier {
-        Tier::Quick => B { p: 2, f: 1, thorough: false },
-        Tier::Thorough => B { p: 3, f: 2, thorough: true },
+        Tier::Quick => B { p: 3, f: 1, thorough: false },
+        Tier::Thorough => B { p: 4, f: 2, thorough: true },
     }
 }
 
@@ -203,6 +203,11 @@ pub fn conc_core(tier: Tier, base: &[&'static str]) -> Vec<Scenario> {
 pub fn seq_core(tier: Tier, base: &[&'static str]) -> Vec<Scenario> {
     let b = bounds(tier);
     let mut v = Vec::new();
+    {
+        let mut sc = SeqScenario::new(faulty_cfg(0), if b.thorough { 7 } else { 5 }, base);
+        sc.max_tasks = 3;
+        v.push(seq("histories/ms0", "a pool with max_size 0: every caller waits or times out, nothing is ever created", 2, sc));
+    }
     for ms in [1usize, 2] {
         let mut sc = SeqScenario::new(faulty_cfg(ms), if b.thorough { 8 } else { 6 }, base);
         sc.max_tasks = if ms == 1 { 2 } else { 3 };
@@ -447,7 +452,7 @@ pub fn c09_scenarios(tier: Tier) -> Vec<Scenario> {
         sc.take = true;
         sc.max_tasks = 2;
         sc.prefill = prefill;
-        sc.resize_targets = vec![1, 3];
+        sc.resize_targets = vec![0, 1, 3];
         sc.close = true;
         sc.gets_nonblocking = false;
         v.push(seq(&format!("retain-take-histories/ms{}", ms), "every history mixing retain (all predicates as subsets of the idle objects, stateful by construction), take, gets, returns, resize and close; detach ledger and capacity probe at the end", 1, sc));
@@ -525,7 +530,7 @@ pub fn unmanaged_scenarios(tier: Tier, with_close: bool) -> Vec<Scenario> {
         v.push(uconc("cancel-waiting-get-and-add/vec1", "waiting get() and add() calls are abandoned while returns and takes happen", p, 2, UBuild::FromVec(1), vec![vec![g(), UOp::Release, a()], vec![g(), UOp::Take]]));
         v.push(uconc("zero-size/new0", "max_size 0: add waits forever, try_add reports Timeout", p, f, UBuild::New(0), vec![vec![UOp::TryAdd, a()], vec![UOp::TryGet, UOp::TimeoutGet0]]));
         v.push(uconc("timeout0-vs-return/vec2", "timeout_get(0) and try_get racing with returns", p, f, UBuild::FromVec(2), vec![vec![UOp::TimeoutGet0, UOp::TryGet, UOp::Release, UOp::Release], vec![g(), UOp::Release]]));
-        for (name, build) in [("new2", UBuild::New(2)), ("vec2", UBuild::FromVec(2)), ("cfg1", UBuild::FromConfig(1))] {
+        for (name, build) in [("new2", UBuild::New(2)), ("vec2", UBuild::FromVec(2)), ("cfg1", UBuild::FromConfig(1)), ("new0", UBuild::New(0)), ("vec0", UBuild::FromVec(0))] {
             v.push(useq(&format!("histories/{}", name), "every history of get / try_get / timeout_get(0) / add / try_add / remove / try_remove / take / return with cancellation of waiting get() and add()", if b.thorough { 2 } else { 1 }, USeqScenario { build, depth: if b.thorough { 8 } else { 6 }, max_tasks: 2, close: false, cancel: true }));
         }
     } else {
@@ -535,7 +540,7 @@ pub fn unmanaged_scenarios(tier: Tier, with_close: bool) -> Vec<Scenario> {
         v.push(uconc("close-vs-waiting-add/vec1", "close() while add() waits for a slot and a getter holds the object", p, f, UBuild::FromVec(1), vec![vec![g(), UOp::Release], vec![a()], vec![UOp::Close]]));
         v.push(uconc("close-vs-take-return/vec2", "close() vs take and return", p, f, UBuild::FromVec(2), vec![vec![UOp::TryGet, UOp::Take, UOp::TryGet, UOp::Release], vec![UOp::Close, UOp::Status]]));
         v.push(uconc("close-vs-remove/vec1", "close() vs remove()/try_remove()/timeout_get(0)", p, f, UBuild::FromVec(1), vec![vec![UOp::TryRemove, UOp::TimeoutGet0], vec![UOp::Close, UOp::Close]]));
-        for (name, build) in [("new1", UBuild::New(1)), ("vec2", UBuild::FromVec(2))] {
+        for (name, build) in [("new1", UBuild::New(1)), ("vec2", UBuild::FromVec(2)), ("new0", UBuild::New(0))] {
             v.push(useq(&format!("close-histories/{}", name), "close() at every position of every history of unmanaged pool operations", if b.thorough { 2 } else { 1 }, USeqScenario { build, depth: if b.thorough { 8 } else { 6 }, max_tasks: 2, close: true, cancel: true }));
         }
     }
